@@ -315,6 +315,12 @@ type vlRec struct {
 	Server   int64  `json:"server"`
 	Direct   int32  `json:"direct"` // mapShardIDUnique(common.LCM(l,r), own count of the reached cluster, s); -1 = panic
 	Wf       []vlWf `json:"wf"`
+	// arrival order: which ordering scenario this open belongs to and its position on that server object
+	Order string `json:"order"` // "base" | "highup" | "down" | "random" | "frontier"
+	Seq   int    `json:"seq"`
+	// length / capacity of the server's stream-counter slice after the open (state that guided the next id; no verdict)
+	ObsLen int `json:"obsLen"`
+	ObsCap int `json:"obsCap"`
 }
 
 func (r vlRec) MarshalJSON() ([]byte, error) {
@@ -332,6 +338,7 @@ func (r vlRec) MarshalJSON() ([]byte, error) {
 		m["dir"], m["path"], m["up"], m["reported"], m["s"], m["fail"], m["detail"] = r.Dir, r.Path, r.Up, r.Reported, r.S, r.Fail, r.Detail
 		m["ccl"], m["client"], m["scl"], m["server"], m["direct"], m["wf"] = r.CCl, r.Client, r.SCl, r.Server, r.Direct, wf
 		m["cclIn"], m["sclIn"] = vlClientCluster, vlServerCluster
+		m["order"], m["seq"], m["obsLen"], m["obsCap"] = r.Order, r.Seq, r.ObsLen, r.ObsCap
 	}
 	return json.Marshal(m)
 }
@@ -343,6 +350,18 @@ type vlPair struct {
 	N    int     `json:"n"`
 	Grpc int     `json:"grpc"` // how many of the ids also go through the real grpc path (boundary ids first)
 	Ids  []int32 `json:"ids"`  // mode "ids": exactly these shard ids (replay of one record)
+	// Arrival-order scenarios (the design's Map is a function of the id alone: whatever was opened before on a server
+	// object, every id in 1..LCM must be forwarded).  Each scenario runs on a FRESH ClusterConnection (fresh server
+	// objects, fresh observers), in-process path, both directions:
+	// Sweep > 0: with lo = 1000 (just below the initial counter slice) and hi = min(LCM, 1024+Sweep)
+	//   "highup" a seeded high id first, then every id of lo..hi ascending
+	//   "down"   a seeded high id first, then hi..lo descending
+	//   "random" a seeded permutation of lo..hi
+	// Frontier > 0: that many opens; after each one the next ids are taken from the borders of the counter slice the
+	//   server object has NOW (len-1, len, len+1, middle of len..cap, cap-1, cap, cap+1), whatever the growth policy is
+	Sweep    int    `json:"sweep"`
+	Frontier int    `json:"frontier"`
+	Order    string `json:"order"` // replay: only this scenario ("" = all), with Ids as the exact arrival order
 }
 
 const (
@@ -555,12 +574,97 @@ func vlPairRun(p vlPair, seed int64, bound time.Duration) ([]vlRec, error) {
 			bucket[o] = append(bucket[o], wfid{id, o})
 		}
 	}
-	for _, dir := range []string{"inbound", "outbound"} {
-		d := vlDescribe(rig, p.L, p.R, dir)
-		out = append(out, d)
+	// one stream open on a server object; the record is appended to out
+	type srvState struct {
+		rig    *vlRig
+		dir    string
+		d      vlRec
+		impl   *adminServiceProxyServer
+		obs    *ReplicationStreamObserver
+		wedged bool
+		seq    int
+	}
+	newState := func(rig *vlRig, dir string, emitDescribe bool) (*srvState, error) {
+		st := &srvState{rig: rig, dir: dir, d: vlDescribe(rig, p.L, p.R, dir)}
+		if emitDescribe {
+			out = append(out, st.d)
+		}
+		var err error
+		if st.impl, err = rig.adminImpl(dir); err != nil {
+			return nil, err
+		}
+		st.obs = rig.cc.inboundObserver
+		if dir == "outbound" {
+			st.obs = rig.cc.outboundObserver
+		}
+		return st, nil
+	}
+	// length and capacity of the counter slice, read without the lock (the handler has returned or is wedged)
+	obsShape := func(st *srvState) (int, int) {
+		if st.obs == nil || !st.obs.streamGrowLock.TryLock() {
+			return -1, -1
+		}
+		defer st.obs.streamGrowLock.Unlock()
+		return len(st.obs.streamActive), cap(st.obs.streamActive)
+	}
+	openOne := func(st *srvState, s int32, order string, viaGrpc bool) {
 		// own count of the cluster this server talks to, as that cluster reported it (not derived from the direction)
-		own := d.Raw
-		// ids to try
+		own := st.d.Raw
+		st.seq++
+		rec := vlRec{Ev: "stream", L: p.L, R: p.R, Dir: st.dir, S: s, Reported: st.d.Reported, Up: "none", Server: -1, Client: -1, Direct: -1,
+			Order: order, Seq: st.seq, ObsLen: -1, ObsCap: -1}
+		if st.wedged {
+			rec.Path, rec.Fail = "inproc", "skipped-wedged"
+			out = append(out, rec)
+			return
+		}
+		// an id in the hundreds of millions makes the (repaired) observer allocate and clear ~1 GB of counters: seconds under
+		// load.  Only "never" is a failure (a leaked lock does not recover), so the bound is generous there.
+		bound := bound
+		if s > 1<<24 {
+			bound = 40 * time.Second
+		}
+		var md metadata.MD
+		if viaGrpc {
+			rec.Path = "grpc"
+			req := fmt.Sprintf("%s-%s-%d-%d", st.dir, order, st.seq, s)
+			var o vlOpen
+			o, rec.Up, rec.Fail, rec.Detail = st.rig.vlGrpc(st.dir,
+				vlStreamMD(strconv.Itoa(vlClientCluster), "1", strconv.Itoa(vlServerCluster), strconv.Itoa(int(s)), req), req, bound)
+			md = o.MD
+		} else {
+			rec.Path = "inproc"
+			md, rec.Fail, rec.Detail = vlInproc(st.impl, s, bound)
+			rec.Up = st.d.Up // the in-process copy has no upstream: it stands for the cluster DescribeCluster reached
+		}
+		if rec.Fail == "" {
+			vlFill(&rec, md)
+		}
+		if rec.Fail == "hang" {
+			st.wedged = true
+		} else {
+			rec.ObsLen, rec.ObsCap = obsShape(st)
+		}
+		if own > 0 {
+			rec.Direct = vlDirectMap(lcm, own, s)
+			for _, w := range bucket[s] {
+				rec.Wf = append(rec.Wf, vlWf{OL: w.oL, OC: servercommon.WorkflowIDToHistoryShard(vlNamespace, w.id, own)})
+			}
+		}
+		if len(rec.Detail) > 200 {
+			rec.Detail = rec.Detail[:200]
+		}
+		out = append(out, rec)
+	}
+	// ---- base scenario: boundary ids first, then all / sampled ids ascending
+	for _, dir := range []string{"inbound", "outbound"} {
+		if p.Order != "" && p.Order != "base" {
+			break
+		}
+		st, err := newState(rig, dir, true)
+		if err != nil {
+			return nil, err
+		}
 		boundary := []int32{1, lcm}
 		for _, c := range []int32{p.L, p.R} {
 			boundary = append(boundary, c, c+1, lcm-c+1)
@@ -595,47 +699,120 @@ func vlPairRun(p vlPair, seed int64, bound time.Duration) ([]vlRec, error) {
 		}
 		rest := ids[nb:]
 		sort.Slice(rest, func(i, j int) bool { return rest[i] < rest[j] })
-		impl, err := rig.adminImpl(dir)
-		if err != nil {
-			return nil, err
-		}
-		wedged := false
 		for i, s := range ids {
-			rec := vlRec{Ev: "stream", L: p.L, R: p.R, Dir: dir, S: s, Reported: d.Reported, Up: "none", Server: -1, Client: -1, Direct: -1}
-			if wedged {
-				rec.Path, rec.Fail = "inproc", "skipped-wedged"
-				out = append(out, rec)
+			openOne(st, s, "base", i < p.Grpc)
+		}
+	}
+	// ---- arrival-order scenarios, each on fresh server objects
+	scenario := func(order string, seqFor func(dir string, st *srvState) []int32, drive func(st *srvState)) error {
+		if p.Order != "" && p.Order != order {
+			return nil
+		}
+		r2, err := vlNewRig(config.ShardCountConfig{Mode: config.ShardCountLCM, LocalShardCount: p.L, RemoteShardCount: p.R}, p.L, p.R)
+		if err != nil {
+			return err
+		}
+		defer r2.close()
+		for _, dir := range []string{"inbound", "outbound"} {
+			st, err := newState(r2, dir, false)
+			if err != nil {
+				return err
+			}
+			if drive != nil {
+				drive(st)
 				continue
 			}
-			var md metadata.MD
-			if i < p.Grpc {
-				rec.Path = "grpc"
-				req := fmt.Sprintf("%s-%d", dir, s)
-				var o vlOpen
-				o, rec.Up, rec.Fail, rec.Detail = rig.vlGrpc(dir,
-					vlStreamMD(strconv.Itoa(vlClientCluster), "1", strconv.Itoa(vlServerCluster), strconv.Itoa(int(s)), req), req, bound)
-				md = o.MD
-			} else {
-				rec.Path = "inproc"
-				md, rec.Fail, rec.Detail = vlInproc(impl, s, bound)
-				rec.Up = d.Up // the in-process copy has no upstream: it stands for the cluster DescribeCluster reached
-			}
-			if rec.Fail == "" {
-				vlFill(&rec, md)
-			}
-			if rec.Fail == "hang" {
-				wedged = true
-			}
-			if own > 0 {
-				rec.Direct = vlDirectMap(lcm, own, s)
-				for _, w := range bucket[s] {
-					rec.Wf = append(rec.Wf, vlWf{OL: w.oL, OC: servercommon.WorkflowIDToHistoryShard(vlNamespace, w.id, own)})
+			for _, s := range seqFor(dir, st) {
+				if s >= 1 && s <= lcm {
+					openOne(st, s, order, false)
 				}
 			}
-			if len(rec.Detail) > 200 {
-				rec.Detail = rec.Detail[:200]
+		}
+		return nil
+	}
+	if p.Order != "" && p.Order != "base" && len(p.Ids) > 0 {
+		// replay of one scenario: exactly the recorded arrival order
+		if err := scenario(p.Order, func(string, *srvState) []int32 { return p.Ids }, nil); err != nil {
+			return nil, err
+		}
+		return out, nil
+	}
+	if p.Sweep > 0 && lcm > 1024 {
+		lo, hi := int32(1000), int32(1024+p.Sweep)
+		if hi > lcm {
+			hi = lcm
+		}
+		// a high first id whose growth (whatever the policy) is likely to end inside lo..hi: upper part of lo..hi*8/9
+		high := func() int32 {
+			top := int64(hi) * 8 / 9
+			if top <= 1100 {
+				return hi
 			}
-			out = append(out, rec)
+			return int32(1024 + (top-1024)/2 + rng.Int63n((top-1024)/2+1))
+		}
+		if err := scenario("highup", func(string, *srvState) []int32 {
+			ids := []int32{high()}
+			for s := lo; s <= hi; s++ {
+				ids = append(ids, s)
+			}
+			return ids
+		}, nil); err != nil {
+			return nil, err
+		}
+		if err := scenario("down", func(string, *srvState) []int32 {
+			ids := []int32{high()}
+			for s := hi; s >= lo; s-- {
+				ids = append(ids, s)
+			}
+			return ids
+		}, nil); err != nil {
+			return nil, err
+		}
+		if err := scenario("random", func(string, *srvState) []int32 {
+			ids := make([]int32, 0, hi-lo+1)
+			for s := lo; s <= hi; s++ {
+				ids = append(ids, s)
+			}
+			rng.Shuffle(len(ids), func(i, j int) { ids[i], ids[j] = ids[j], ids[i] })
+			return ids
+		}, nil); err != nil {
+			return nil, err
+		}
+	}
+	if p.Frontier > 0 && lcm > 1024 {
+		if err := scenario("frontier", nil, func(st *srvState) {
+			done := map[int32]bool{}
+			var queue []int32
+			push := func(v int64) {
+				if v >= 1 && v <= int64(lcm) && !done[int32(v)] {
+					done[int32(v)] = true
+					queue = append(queue, int32(v))
+				}
+			}
+			// start: a seeded id above the initial slice, not so high that its growth leaves the id space at once
+			top := int64(lcm) * 8 / 9
+			if top < 1100 {
+				top = int64(lcm)
+			}
+			push(1024 + rng.Int63n(top-1024+1))
+			for n := 0; n < p.Frontier && len(queue) > 0; n++ {
+				s := queue[0]
+				queue = queue[1:]
+				openOne(st, s, "frontier", false)
+				ln, cp := obsShape(st)
+				if ln < 0 {
+					continue
+				}
+				// the borders of the slice as it is now; beyond cap the next growth starts
+				for _, v := range []int64{int64(ln), int64(ln) - 1, int64(cp) - 1, (int64(ln) + int64(cp)) / 2, int64(ln) + 1, int64(cp), int64(cp) + 1} {
+					push(v)
+				}
+				if len(queue) == 0 { // the id space is exhausted above: continue somewhere else
+					push(1 + rng.Int63n(int64(lcm)))
+				}
+			}
+		}); err != nil {
+			return nil, err
 		}
 	}
 	return out, nil
